@@ -11,6 +11,39 @@ COMMON_NOTE = ("Trusted: Lean 4.33 kernel; the hand-written Lean model (lean/Pat
                "transcript replay by lean/Main.lean); the harness generators; Linux 6.18 as the environment. ")
 
 CLAIMS = {
+    "C01": dict(
+        text="Lean theorems (Props/C01.lean over Kernel/World.lean): for every well-formed immutable directory tree (arbitrary "
+             "shape, symlink bodies, '..'), every path byte string and both trailing-symlink modes and every resolver flag word, "
+             "running the model of the emulated walk (Opath.resolve, incl. every check_current through libpathrs' procfs handle) on "
+             "that world returns exactly World.resolveInRoot — the specification of openat2(RESOLVE_IN_ROOT|RESOLVE_NO_MAGICLINKS): "
+             "the same object or the same errno (simulation proof by induction over the walk); the kernel backend's retry loop "
+             "returns the kernel's answer; Root::readlink returns the body of that object or EINVAL; every successful result has "
+             "a path below the root; a self-referencing link gives ELOOP for any spent budget and both the walk and the "
+             "specification are total functions (termination measure: link budget, remaining components). Tie: generated trees "
+             "x path spellings x flag sets on both backends with and without openat2, replayed call-by-call through the same "
+             "model programs. Oracle: every lookup is compared with a raw openat2(RESOLVE_IN_ROOT|RESOLVE_NO_MAGICLINKS) issued "
+             "by the harness on the same tree (object identity or errno).",
+        note="The World's answers (Kernel/World.lean: fd-relative single-component lookup, d_path rendering of "
+             "/proc/thread-self/fd/N, kresolve as the meaning of RESOLVE_IN_ROOT) are the trusted statement of kernel behaviour; "
+             "the raw-openat2 oracle of the suite compares that specification's subject with the live kernel on every generated "
+             "case. One-shot open_subpath flag handling is covered by the tie and oracle plus the reopen theorems of C05/C09, not "
+             "by a World-level theorem.",
+        technique="Lean 4 proof (simulation of the emulated walk against a kernel specification, fun_induction) + transcript replay + live-kernel openat2 oracle",
+        ref="DESIGN.md §8 C01"),
+    "C04": dict(
+        text="Lean theorems (Props/C04.lean): both backends compute World.resolveInRoot (C01), whose only backend-dependent "
+             "parameter is the link budget (kernel 40, emulated 128); kresolve_limit_mono proves a larger budget changes nothing "
+             "unless the smaller was exhausted, so resolve / resolve_nofollow / readlink (and every parent lookup) return the "
+             "same object or errno on both backends whenever the kernel does not answer ELOOP (every lookup with at most 40 "
+             "traversals), unconditionally with NO_SYMLINKS. Tie and oracle: every generated operation (lookups, one-shot open "
+             "flag sets, readlink, create*, mkdir_all, remove_*, rename) is executed on identical trees with the kernel and "
+             "the emulated backend and replayed through the model; results, errno classes, access mode/status flags/FD_CLOEXEC of "
+             "returned descriptors (O_NOFOLLOW echo excluded) and the resulting tree snapshots are compared pairwise.",
+        note="theorem partial: equivalence of the two *partial* lookups behind mkdir_all (symlink stack vs. ancestor probing) and "
+             "of the one-shot open's flag emulation is decided by the pairwise differential on generated inputs and the "
+             "transcript tie, not by an unbounded theorem.",
+        technique="Lean 4 proof (both backends equal one specification; budget monotonicity) + pairwise backend differential",
+        ref="DESIGN.md §8 C04"),
     "C03": dict(
         text="Lean theorems (Props/C03.lean), for every environment incl. attackers and arbitrary directory listings: every "
              "unlinkat and directory open of remove_all names one slash-free component that is neither '.' nor '..' below the "
